@@ -37,7 +37,7 @@ def expand(block, tier):
     for case in C07.expand(block, tier):
         n += 1
         case["delim"] = ["::", ":", "::", ": ", " :: ", "::", " : ", ":: "][n % 8]
-        case["arg"] = bool(n % 2) and case["dl"] is not None
+        case["arg"] = [False, True, "both"][n % 3] if case["dl"] is not None else False
         yield case
 
 
